@@ -2,6 +2,7 @@
 # tools/sweep.sh "<seeds>" [tier] : run every claimed check for each seed; report alarms (false-alarm hunting)
 seeds="${1:-1 2 3}"; tier="${2:-quick}"
 cd "$(dirname "$0")/.." || exit 2
+[ -n "$VP_RUN_REPO" ] && export PYTRS_REPO="$VP_RUN_REPO"
 ids=$(python3 -c "import json; print(' '.join(c['property_id'] for c in json.load(open('MANIFEST.json'))['checks']))")
 bad=0
 for s in $seeds; do
